@@ -587,4 +587,20 @@ pub fn run(tier: &str, seed: u64, out: &mut Out) {
     run_random::<()>("zst", cases / 2, &mut rng, out);
     run_type::<u8>("u8", max_len, &p, out);
     run_type::<()>("zst", max_len, &p, out);
+    // zero-sized elements: a slice can be usize::MAX long, the only place where `len + 1` / `len + size - 1` overflow.
+    // The list-based model cannot hold 2^64 elements, so these rows are implementation vs std only
+    // (added after seeded change C08-r4-1: Windows::next_back counted windows as `len + 1 - size`)
+    {
+        let v: Vec<()> = vec![(); usize::MAX];
+        let base: &[()] = &v;
+        let hp = Plan {
+            fb: vec![b"fbbf".to_vec(), b"bbff".to_vec(), b"bfbf".to_vec()],
+            fbr: vec![b"rfb".to_vec(), b"brf".to_vec(), b"frbb".to_vec()],
+            copy: vec![],
+            copy_max_len: 0,
+        };
+        for n in [1usize, 2, 3, 7, isize::MAX as usize, isize::MAX as usize + 1, usize::MAX - 1, usize::MAX] {
+            sized_kinds(out, "zst", base, n, &hp);
+        }
+    }
 }
